@@ -396,9 +396,13 @@ fn items(tier: Tier) -> &'static Vec<Item> {
                 }
             }
         }
-        if thorough {
+        {
             // n = 4: all 24 forced orders over a reduced action set
-            let acts4 = [Action::Respond(10), Action::Raw { writes: 0, body: 0, flush: false }, Action::Drop];
+            let acts4: Vec<Action> = if thorough {
+                vec![Action::Respond(10), Action::Raw { writes: 0, body: 0, flush: false }, Action::Drop, Action::Raw { writes: 2, body: 1500, flush: true }]
+            } else {
+                vec![Action::Respond(10), Action::Raw { writes: 0, body: 0, flush: false }, Action::Drop]
+            };
             for a in &acts4 {
                 for b in &acts4 {
                     for c in &acts4 {
@@ -471,7 +475,7 @@ impl Check for C01 {
             "answer actions {:?}; n=2: every program, handler threads started in both forced orders (bound 0), all at once (strict bound {}), with the second request sent while the first handler already runs (connection thread parsing concurrently), and at the SequentialWriter seam ({}); n=3: every program over 6 actions with all 6 forced orders{}; {} scenarios; oracle: the client stream parses into complete messages whose (status, request id) sequence is the request order (writers that emit nothing are skipped, a dropped request shows as 500), bodies carry their own request id, no hang; non-trivial = all",
             actions(tier).iter().map(|a| a.label()).collect::<Vec<_>>(), if tier == Tier::Thorough { 2 } else { 1 },
             if tier == Tier::Thorough { "ALL interleavings, unbounded" } else { "chess bound 3" },
-            if tier == Tier::Thorough { ", racing at strict bound 1 and at the seam at chess bound 2; n=4: 3 actions, all 24 forced orders" } else { "" },
+            if tier == Tier::Thorough { ", racing at strict bound 1 and at the seam at chess bound 2; n=4: 4 actions, all 24 forced orders" } else { "; n=4: 3 actions (respond, unused raw writer, drop), all 24 forced orders" },
             items(tier).len()
         )
     }
